@@ -125,7 +125,7 @@ def corpus(tier, seed):
 def run(tier, seed):
     chk = C.Check(PID, tier, seed, level="proof")
     ok, log = C.coq_build()
-    obl = C.prop_obligations(PID, files=["Prop_C01.v", "Prop_C01_types.v", "Prop_C01_texp.v"] + (["Prop_C01_a2a.v"] if "theories/Prop_C01_a2a.v" in open(os.path.join(C.COQ, "_CoqProject")).read() else [])) if ok else dict(theorems=[], axioms={}, ok=False, log=log)
+    obl = C.prop_obligations(PID, files=["Prop_C01.v", "Prop_C01_types.v", "Prop_C01_texp.v"] + [f for f in ("Prop_C01_a2a.v", "Prop_C01_e2e.v") if "theories/" + f in open(os.path.join(C.COQ, "_CoqProject")).read()]) if ok else dict(theorems=[], axioms={}, ok=False, log=log)
     if not ok or not obl["ok"]:
         chk.broken("theorems of Prop_C01.v do not check", (log + obl.get("log", ""))[-3000:])
         return chk.finish(obl)
@@ -227,7 +227,20 @@ def run(tier, seed):
         ev = ac.get("evaluator_vs_cpython") or []
         if ev:
             chk.broken("the reference evaluator of M_A2A.v and CPython disagree on the source program", ev[:4])
+    # the bridge (M_Bridge.v): the normaliser's and the translator's serialisations of the same normal form are
+    # tied together by conv inside coqc; instances of bridge_fun / end_to_end on typed samples
+    bridge_cov = {}
+    if "theories/Chk_Bridge.v" in open(os.path.join(C.COQ, "_CoqProject")).read():
+        from . import c01_bridge
+        bc = c01_bridge.collect(tier, seed)
+        bridge_cov = {k: bc.get(k) for k in ("cases", "distinct", "unmodelled", "distribution", "timings")}
+        if bc.get("mismatches"):
+            chk.broken("bridge (M_Bridge.v): the two serialisations of a normal form differ under conv, or an instance of "
+                       "C01e_bridge_fun / C01e_end_to_end evaluates to false", bc["mismatches"][:6])
+        if bc.get("coq_errors") or bc.get("harness_errors"):
+            chk.broken("the bridge case files did not evaluate", ((bc.get("coq_errors") or []) + (bc.get("harness_errors") or []))[:4])
     chk.coverage.update(
+        end_to_end_bridge=bridge_cov,
         normaliser_layer=a2a_cov,
         translator_layer=texp_cov,
         programs=len(distinct), evaluations=tot["evaluated"], distinct_nontrivial=len(distinct),
